@@ -8,7 +8,8 @@ pert-limit : distance of eko_perturbative(ev_op_max_order K) to the Richardson l
 ode        : L(a1) = (4 E(2n) - E(n))/3 satisfies dL/da1 = gamma(a1)/beta(a1) L (5-point
              difference; gamma, beta rebuilt from the inputs and the independent beta table),
              also for the QED 4x4 singlet and 2x2 valence kernels along supplied coupling steps
-             (geometric steps, arithmetic midpoints, alpha_em constant).
+             (geometric steps, arithmetic midpoints, alpha_em MOVING along the steps as a smooth
+             function of the mid-step a_s, by a factor of up to 2 over the range).
 """
 
 import math
@@ -40,15 +41,20 @@ def _iter_fn(cell, rng):
     qed = cell["qed"]
     dim = 4 if sec == "singlet-qed" else 2
     G = kern.qed_grid(rng, order, qed, dim)
-    aem = rng.uniform(0.0005, 0.003)
+    aem0 = rng.uniform(0.0005, 0.003)
+    slope = rng.uniform(5.0, 20.0)
     f = kern.singlet_qed if dim == 4 else kern.valence_qed
     mix = c.beta_qcd_mix_indep(nf)
 
+    def aemf(a):   # the supplied electromagnetic coupling moves along the steps
+        return aem0 * (1.0 + slope * a)
+
     def E(a1, a0, n):
-        as_list, a_half = kern.steps(a0, a1, n, aem)
+        as_list, a_half = kern.steps(a0, a1, n, aemf)
         return f(order, qed, G, as_list, a_half, nf, n)
 
     def rhs(a):
+        aem = aemf(a)
         gam = sum(G[i, j] * a**i * aem**j for i in range(order + 1) for j in range(qed + 1))
         return gam / (c.beta_of_a(a, bvec) + mix * a**2 * aem)
 
